@@ -551,6 +551,150 @@ fn memcheck(rep: &mut Report, tier: Tier, rel: &std::path::Path) -> Result<(), S
     Ok(())
 }
 
+
+// ---- typed targets: "deserialize it" is not only `toml::Value`; every text is also decoded into a family of Rust
+// types through the text route, the toml_edit route and the Value route.  Whether that succeeds is irrelevant here;
+// it must return.
+
+#[derive(serde::Deserialize)]
+#[allow(dead_code)]
+struct TA<X> {
+    #[serde(default = "none")]
+    a: Option<X>,
+    #[serde(default = "none")]
+    b: Option<X>,
+    #[serde(default = "none")]
+    k: Option<X>,
+    #[serde(default = "none")]
+    t: Option<X>,
+}
+fn none<X>() -> Option<X> {
+    None
+}
+#[derive(serde::Deserialize)]
+#[allow(dead_code)]
+struct TR<X> {
+    k: X,
+}
+#[derive(serde::Deserialize)]
+#[allow(dead_code)]
+enum TE {
+    Unit,
+    New(toml_datetime::Datetime),
+    Tup(i64, String),
+    Str { a: Option<toml_datetime::Datetime> },
+}
+#[derive(serde::Deserialize)]
+#[allow(dead_code)]
+struct TUnit;
+#[derive(serde::Deserialize)]
+#[allow(dead_code)]
+struct TNewt(toml_datetime::Datetime);
+#[derive(serde::Deserialize)]
+#[allow(dead_code)]
+struct TTup(toml_datetime::Date, toml_datetime::Time);
+
+macro_rules! typed_routes {
+    ($text:expr, $n:ident, $($x:ty),+ $(,)?) => {{
+        $(
+            $n += toml::from_str::<TA<$x>>($text).is_ok() as usize;
+            $n += toml_edit::de::from_str::<TR<$x>>($text).is_ok() as usize;
+            if let Ok(v) = toml::from_str::<toml::Value>($text) {
+                $n += v.try_into::<TA<$x>>().is_ok() as usize;
+            }
+        )+
+    }};
+}
+
+pub fn typed_exercise(bytes: &[u8]) -> usize {
+    let Ok(text) = std::str::from_utf8(bytes) else { return 0 };
+    if text.parse::<toml_edit::DocumentMut>().is_err() {
+        return 0;
+    }
+    let mut n = 0usize;
+    typed_routes!(
+        text,
+        n,
+        i8,
+        u64,
+        f32,
+        bool,
+        char,
+        String,
+        toml_datetime::Datetime,
+        toml_datetime::Date,
+        toml_datetime::Time,
+        Vec<toml_datetime::Datetime>,
+        Vec<Option<i64>>,
+        (i64, String),
+        [toml_datetime::Date; 2],
+        std::collections::BTreeMap<String, toml_datetime::Datetime>,
+        std::collections::BTreeMap<String, Vec<TTup>>,
+        TE,
+        Vec<TE>,
+        TUnit,
+        TNewt,
+        TTup,
+        (),
+        serde_spanned::Spanned<toml_datetime::Datetime>,
+        serde_spanned::Spanned<Vec<serde_spanned::Spanned<toml_datetime::Time>>>,
+        Box<TR<toml_datetime::Datetime>>,
+        serde::de::IgnoredAny,
+        toml::Value,
+    );
+    n
+}
+
+/// every shape a value can have, under the key the typed targets look at
+fn typed_shape_docs() -> Vec<String> {
+    let lits = ["{}", "[]", "[{}]", "[[]]", "[[], {}]", "{a = {}}", "{k = {}}", "1", "-1", "1.5", "nan", "true", "\"s\"", "\"\"", "'c'", "1979-05-27", "07:32:00", "1979-05-27T07:32:00", "1979-05-27T07:32:00.5Z", "[1979-05-27, {}]", "[1979-05-27, 07:32:00]", "{\"$__toml_private_datetime\" = \"x\"}", "{\"$__toml_private_datetime\" = 1}", "{\"$__toml_private_datetime\" = \"1979-05-27\", a = 1}", "\"Unit\"", "{New = {}}", "{New = 1979-05-27}", "{Tup = []}", "{Tup = [1]}", "{Str = {}}", "{Str = {a = {}}}", "{Unit = 1}", "{}"];
+    let mut out = Vec::new();
+    for l in lits {
+        out.push(format!("k = {}\n", l));
+        out.push(format!("k = [{}]\n", l));
+        out.push(format!("k = [{}, {}]\n", l, l));
+        out.push(format!("k = {{ a = {} }}\n", l));
+        out.push(format!("a = {}\nb = {}\n", l, l));
+        out.push(format!("[k]\na = {}\n", l));
+        out.push(format!("[[k]]\na = {}\n[[k]]\n", l));
+        out.push(format!("[t]\nk = {}\n[k]\n", l));
+    }
+    out.push("[k]\n".into());
+    out.push("[[k]]\n".into());
+    out.push("[[k]]\n[[k]]\n".into());
+    out.push("[k.a]\n".into());
+    out.push("[[k.a]]\n".into());
+    out.push("".into());
+    out
+}
+
+fn typed_eval(bytes: &[u8], uni: &'static str, acc: &mut Acc) {
+    match guarded(|| typed_exercise(bytes)) {
+        Ok(n) => {
+            if n > 0 {
+                acc.bump("typed: some target decoded");
+                acc.nontrivial(bytes);
+                acc.sample(|| crate::c_docs::show(bytes));
+            } else {
+                acc.bump("typed: no target decoded");
+            }
+        }
+        Err(p) => {
+            acc.panics += 1;
+            acc.viol(uni, crate::c_docs::show(bytes), None, format!("panic while deserializing into a typed target: {}", p));
+        }
+    }
+}
+
+fn typed(rep: &mut Report, tier: Tier) {
+    let t0 = Instant::now();
+    let cases = typed_shape_docs();
+    let f = |s: &str, acc: &mut Acc| typed_eval(s.as_bytes(), "U-typed", acc);
+    let (total, acc) = crate::universe::sweep_list(&cases, &f);
+    rep.absorb("U-typed", "33 value shapes (empty containers, scalars, the four date-time kinds, the private date-time struct spelled by hand, enum payloads) x 8 frames under the keys the targets read, decoded into 26 target types through 3 routes", total, true, t0, acc);
+    docu::run(rep, tier, &["tok-small", "stmt-small", "dt", "edge"], &typed_eval);
+}
+
 // ---- growth family, each shard in a sacrificial worker process
 
 const GROWTH_FRAMES: [(&str, &str); 8] = [("", ""), ("k=", "\n"), ("k=[", "]"), ("k={a=", "}"), ("[", "]"), ("k=\"\"\"", "\"\"\""), ("k='''", "'''"), ("k=\"", "\"")];
@@ -708,6 +852,7 @@ pub fn c04(tier: Tier) -> i32 {
     ];
     start_watchdog("C04");
     docu::run(&mut rep, tier, &["byte", "tok-wide", "ctx", "esc", "num", "edge", "dt", "raw", "corpus", "decor", "stmt-small", "cp", "utf8", "vtok"], &c04_eval);
+    typed(&mut rep, tier);
     if let Err(e) = growth(&mut rep, tier) {
         println!("MACHINERY-ERROR {}", e);
         return 2;
